@@ -309,7 +309,7 @@ Section Fault.
       clear H. rename H' into H.
       pose proof (seek_mid_kb s K ltac:(lia)) as K3. rewrite Hm in K3. cbn [snd] in K3.
       unfold seek_ofs in H.
-      destruct (seek_start bs ofs bad s3) as [[|] s0] eqn:Hss; cbn [snd] in H.
+      destruct (seek_start bs ofs bad s3) as [[|] s0] eqn:Hss; cbn [negb] in H; [|discriminate].
       + (* back at the start with the first block buffered *)
         apply seek_start_mono in Hss. pose proof K3 as (K3dk & K3fh & K3c & _ & _ & K3cx & K3len).
         destruct (seek_start_cb bs ofs key Hbs s3 L E (kb_cb s3 K3) K3cx K3len) as (s5 & Hs5 & I5 & P5 & C5 & D5 & F5 & W5 & M5 & N5).
@@ -325,11 +325,6 @@ Section Fault.
         pose proof (ofs_walk_same bs ofs nobad (Z.to_nat (p / bs + 2)) s0 0 p) as (D6 & _). rewrite H in D6. cbn [snd] in D6.
         rewrite H in Hw. injection Hw as <-. destruct K3 as (_ & _ & _ & K3w & K3r & _).
         split; [|split; [exact P6|exact Pi6]]. unfold CohT. split; [exact I6|]. split; [exact R6|]. repeat split; congruence.
-      + (* the first block cannot be fetched: the walk ends without a buffered block *)
-        exfalso. destruct (seek_start_fail_dead s3 s0 Hss) as (Hc0 & Hn0 & Hf0 & Hb0).
-        assert (Hfs : fsize s0 = fsize s) by (unfold fsize; rewrite Hf0; destruct K3 as (_ & K3fh & _); rewrite K3fh, Kfh; reflexivity).
-        rewrite Hfs in H. replace (Z.min p (fsize s)) with p in H by lia. destruct (Z.eqb_spec p (fsize s)); [lia|].
-        apply Hcur. apply (ofs_walk_dead (Z.to_nat (p / bs + 2)) s0 0 p s' Hc0 Hn0); [rewrite Hf0; exact Hb0|exact H].
   Qed.
 
   (* ---- what a failing seek leaves: a KB state, whichever way it failed ---- *)
@@ -349,19 +344,15 @@ Section Fault.
   Lemma seek_ofs_kb eofk s p : KB s -> 0 <= p < fsize s -> KB (snd (seek_ofs bs ofs bad eofk s p)).
   Proof.
     intros K Hp. unfold seek_ofs. pose proof (seek_start_kb s K) as K0.
-    destruct (seek_start bs ofs bad s) as [[|] s0] eqn:Hss; cbn [snd] in *.
-    - apply seek_start_mono in Hss. pose proof K as (Kdk & Kfh & Kc & Kw & Kr & Kcx & Klen).
-      destruct (seek_start_cb bs ofs key Hbs s L E (kb_cb s K) Kcx Klen) as (s5 & Hs5 & I5 & P5 & C5 & D5 & F5 & W5 & M5 & N5).
-      rewrite Hss in Hs5. injection Hs5 as <-.
-      assert (Hf0 : fsize s0 = fsize s) by (unfold fsize; rewrite F5; reflexivity).
-      rewrite Hf0. replace (Z.min p (fsize s)) with p by lia. destruct (Z.eqb_spec p (fsize s)); [lia|].
-      destruct (N5 ltac:(lia)) as (N1 & N2 & N3).
-      assert (R0 : Repr bs s0 L ct) by (apply (repr_clean bs ofs key Hbs t s0 L E ct It Hct I5 C5); [congruence|congruence|exact Rt]).
-      apply ofs_walk_kb; try assumption; try lia. unfold CohT. split; [exact I5|]. split; [exact R0|]. repeat split; congruence.
-    - destruct (seek_start_fail_dead s s0 Hss) as (Hc0 & Hn0 & Hf0 & Hb0).
-      assert (Hfs : fsize s0 = fsize s) by (unfold fsize; rewrite Hf0; reflexivity).
-      rewrite Hfs. replace (Z.min p (fsize s)) with p by lia. destruct (Z.eqb_spec p (fsize s)); [lia|].
-      apply ofs_walk_dead_kb; try assumption. rewrite Hf0. exact Hb0.
+    destruct (seek_start bs ofs bad s) as [[|] s0] eqn:Hss; cbn [snd negb] in *; [|exact K0].
+    apply seek_start_mono in Hss. pose proof K as (Kdk & Kfh & Kc & Kw & Kr & Kcx & Klen).
+    destruct (seek_start_cb bs ofs key Hbs s L E (kb_cb s K) Kcx Klen) as (s5 & Hs5 & I5 & P5 & C5 & D5 & F5 & W5 & M5 & N5).
+    rewrite Hss in Hs5. injection Hs5 as <-.
+    assert (Hf0 : fsize s0 = fsize s) by (unfold fsize; rewrite F5; reflexivity).
+    rewrite Hf0. replace (Z.min p (fsize s)) with p by lia. destruct (Z.eqb_spec p (fsize s)); [lia|].
+    destruct (N5 ltac:(lia)) as (N1 & N2 & N3).
+    assert (R0 : Repr bs s0 L ct) by (apply (repr_clean bs ofs key Hbs t s0 L E ct It Hct I5 C5); [congruence|congruence|exact Rt]).
+    apply ofs_walk_kb; try assumption; try lia. unfold CohT. split; [exact I5|]. split; [exact R0|]. repeat split; congruence.
   Qed.
 
   (* ---- a seek that fails leaves no buffered block ---- *)
@@ -472,8 +463,9 @@ Section Fault.
       2:{ apply Bool.not_true_is_false in Ho. assert (Hif : forall (A : Type) (a b : A), (if ofs then a else b) = b) by (intros; rewrite Ho; reflexivity).
           rewrite !Hif. cbn [fst snd]. intros _. exact Hc3. }
       assert (Hif : forall (A : Type) (a b : A), (if ofs then a else b) = a) by (intros; rewrite Ho; reflexivity). rewrite !Hif. clear Hif.
-      unfold seek_ofs. set (s0 := snd (seek_start bs ofs bad s3)).
-      assert (Hf0 : fsize s0 = fsize s) by (rewrite (kb_fsize s0 (seek_start_kb s3 K3)), <- (kb_fsize s K); reflexivity).
+      unfold seek_ofs. pose proof (seek_start_kb s3 K3) as K0.
+      destruct (seek_start bs ofs bad s3) as [[|] s0] eqn:Hss; cbn [negb fst snd] in *; [|intros _; apply (seek_start_fail_cur _ _ Hss)].
+      assert (Hf0 : fsize s0 = fsize s) by (rewrite (kb_fsize s0 K0), <- (kb_fsize s K); reflexivity).
       rewrite Hf0. replace (Z.min p (fsize s)) with p by lia. destruct (Z.eqb_spec p (fsize s)); [lia|].
       destruct (ofs_walk bs ofs bad (Z.to_nat (p / bs + 2)) s0 0 p) as [[|] sw] eqn:Hwk; cbn [fst snd]; [intros Hd; discriminate|].
       intros _. apply (ofs_walk_fail_cur _ _ _ _ _ Hwk).
@@ -570,7 +562,9 @@ Section Fault.
       2:{ apply Bool.not_true_is_false in Ho. assert (Hif : forall (A : Type) (a b : A), (if ofs then a else b) = b) by (intros; rewrite Ho; reflexivity).
           rewrite !Hif. cbn [fst snd]. split; [exact Kr|]. split; [intros Hd; discriminate|intros _; apply Hfr; reflexivity]. }
       assert (Hif : forall (A : Type) (a b : A), (if ofs then a else b) = a) by (intros; rewrite Ho; reflexivity). rewrite !Hif. clear Hif.
-      unfold seek_ofs. pose proof (seek_start_weak sr Kr) as W0. set (s0 := snd (seek_start bs ofs bad sr)) in *.
+      unfold seek_ofs. pose proof (seek_start_weak sr Kr) as W0.
+      destruct (seek_start bs ofs bad sr) as [[|] s0] eqn:Hss; cbn [negb fst snd] in *.
+      2:{ destruct W0 as (K0 & _). split; [exact K0|]. split; [intros Hd; discriminate|intros _; apply (seek_start_fail_cur _ _ Hss)]. }
       pose proof W0 as (K0 & _).
       assert (Hf0 : fsize s0 = fsize s) by (rewrite (kb_fsize s0 K0), <- (kb_fsize s K); reflexivity).
       rewrite Hf0. replace (Z.min p (fsize s)) with (fsize s) by lia. rewrite Z.eqb_refl.
@@ -658,16 +652,9 @@ Section Top.
         - revert H. generalize (seek_ofs bs ofs bad (seek_eof bs ofs bad) sr p). intros r H. rewrite Hofs in H. exact H.
         - apply Bool.not_true_is_false in Hofs. revert H. generalize (seek_ofs bs ofs bad (seek_eof bs ofs bad) sr p). intros r H. rewrite Hofs in H. discriminate. }
       clear H. unfold seek_ofs in H'.
-      pose proof (seek_start_kb bs ofs key Hbs bad L E t It Hct sr Kr) as K0.
-      assert (W0 : Weak bs ofs key L E ct t (snd (seek_start bs ofs bad sr))).
-      { split; [exact K0|]. destruct (seek_start bs ofs bad sr) as [[|] s0] eqn:Hss; cbn [snd] in *.
-        - right. apply seek_start_mono in Hss. pose proof Kr as (Rdk & Rfh & Rc & Rw & Rr & Rcx & Rlen).
-          destruct (seek_start_cb bs ofs key Hbs sr L E (kb_cb bs ofs key L E t It Hct sr Kr) Rcx Rlen) as (s5 & Hs5 & I5 & P5 & C5 & D5 & F5 & W5 & M5 & N5).
-          rewrite Hss in Hs5. injection Hs5 as <-.
-          assert (R0 : Repr bs s0 L ct) by (apply (repr_clean bs ofs key Hbs t s0 L E ct It Hct I5 C5); [congruence|congruence|exact Rt]).
-          unfold CohT. split; [exact I5|]. split; [exact R0|]. repeat split; congruence.
-        - left. apply (seek_start_fail_dead bs ofs bad sr s0 Hss). }
-      set (s0 := snd (seek_start bs ofs bad sr)) in *.
+      pose proof (seek_start_weak bs ofs key Hbs bad L E ct t It Hct Rt sr Kr) as W0.
+      destruct (seek_start bs ofs bad sr) as [[|] s0] eqn:Hss; cbn [negb snd] in *; [|discriminate].
+      pose proof W0 as (K0 & _).
       assert (Hf0 : fsize s0 = fsize s) by (rewrite (kb_fsize bs key L E t s0 K0); exact Hft).
       rewrite Hf0 in H'. replace (Z.min p (fsize s)) with (fsize s) in H' by lia. rewrite Z.eqb_refl in H'.
       assert (Heq : set_pos s0 (pos s0) = s0) by (apply state_ext; reflexivity).
